@@ -1,8 +1,9 @@
 (** C07, arithmetic layer: fee bumping ([feerate_bump], [compute_fee_from_spent_amounts],
     [compute_package_feerate]), the bump timer ([get_height_timer]) and the confirmation threshold.
-    All definitions about the Rust code are the rs2v-generated ones of [Gen/FeeBump.v] (regenerated
+    All definitions about the Rust code are the rs2v-generated ones of [Gen/Package.v], [Gen/CltvChecks.v], [Gen/PackageFeerate.v] (regenerated
     from the source on every run) except the two input walks of [Model/PackageTimer.v]. *)
-Require Import LdkV.Prim.U64 LdkV.Prim.Rs2vLib LdkV.Gen.ConstsFee LdkV.Gen.FeeBump LdkV.Model.PackageTimer.
+Require Import LdkV.Prim.U64 LdkV.Prim.Rs2vLib LdkV.Gen.Consts LdkV.Gen.Package LdkV.Gen.CltvChecks
+  LdkV.Gen.PackageFeerate LdkV.Model.PackageTimer LdkV.Proofs.C08.
 Open Scope Z_scope.
 
 (** * Ranges *)
@@ -544,7 +545,8 @@ Proof.
   - apply Z.ltb_lt. unfold LOW_FREQUENCY_BUMP_INTERVAL, HIGH_FREQUENCY_BUMP_INTERVAL in *. lia.
 Qed.
 
-(** * [confirmation_threshold] *)
+(** * [confirmation_threshold]: the burial/CSV bounds are C08's [threshold_ge] (same generated
+      definition); added here: no [u32] overflow/underflow for realistic heights. *)
 Lemma threshold_spec h kind tsd csv :
   h + ANTI_REORG_DELAY - 1 <= confirmation_threshold h kind tsd csv /\
   (kind = OnchainEventKind_MaturingDelayedPaymentOutput -> h + tsd - 1 <= confirmation_threshold h kind tsd csv) /\
@@ -553,10 +555,12 @@ Lemma threshold_spec h kind tsd csv :
   (1 <= h -> 0 <= tsd < 2 ^ 16 -> (forall c, csv = Some c -> 0 <= c < 2 ^ 16) -> h + 2 ^ 16 < 2 ^ 32 ->
      confirmation_threshold_safe h kind tsd csv = true).
 Proof.
-  unfold confirmation_threshold, confirmation_threshold_safe, ANTI_REORG_DELAY.
-  destruct kind, csv as [c|]; repeat split; intros; try discriminate; try lia;
-    try (match goal with H : Some _ = Some _ |- _ => injection H as -> end; lia);
+  destruct (LdkV.Proofs.C08.threshold_ge h kind tsd csv) as (T1 & T2 & T3).
+  split; [lia|]. split; [intros E; specialize (T2 E); lia|].
+  split; [intros c E1 E2; specialize (T3 c E1 E2); lia|].
+  unfold confirmation_threshold_safe, ANTI_REORG_DELAY.
+  intros Hh Ht Hc Hr.
+  destruct kind, csv as [c|]; try specialize (Hc c eq_refl);
     repeat (apply andb_true_iff; split); try reflexivity;
-    try (apply Z.ltb_lt; lia); try (apply Z.leb_le; lia);
-    try (specialize (H1 _ eq_refl); try apply Z.ltb_lt; try apply Z.leb_le; lia).
+    try (apply Z.ltb_lt; lia); try (apply Z.leb_le; lia).
 Qed.
